@@ -126,6 +126,28 @@ CHECKS["C03"] = dict(
          "couplings with static cells / non-mutual couplings are outside the property; contact model 2 only with 2-way couplings.",
     technique="TLA+ spec (Integrate, exact arithmetic) model-checked by TLC + replay of every TLC behaviour into update_nodes_positions")
 
+CHECKS["C16"] = dict(
+    category="model_checking", design_ref="DESIGN.md §C16, §3.5",
+    text="spec/Io/VtkFormat models the cell-data file and the writer / reader as operators (compaction through Mesh.Rebase, global node offsets, per-cell "
+         "integer counts 1+4*nf, CELL_TYPES 42, the cell_type_id array, per-cell renumbering on reading); TLC checks Read(Write(pop)) = Normalise(pop) and "
+         "CountsConsistent(Write(pop)) for every population in the bound (seed meshes and everything one remeshing operation away, all cell types). Real "
+         "mesh_writer::write + mesh_reader runs on generated populations (1-4 cells, every cell class, unused slots left by real splits/merges, four coordinate "
+         "scales incl. negative and zero values) are validated by TLC (VtkTrace): tokens of the real file = Write(pop), declared counts = contents, reader "
+         "result = Normalise(pop) = Read(real tokens), types preserved, coordinates equal at the written precision.",
+    note="Coordinates are integer tokens times a scale (relative 6e-5 = %.4e precision); other CELL_DATA arrays are checked for shape only; the face-data file "
+         "is outside the property.",
+    technique="TLA+ spec of the file format (VtkFormat) model-checked by TLC + TLC validation of real writer output and reader results")
+CHECKS["C18"] = dict(
+    category="model_checking", design_ref="DESIGN.md §C18, §3.5",
+    text="spec/Io/Params is the schema of the XML file (31 tags with section, kind, sign rule, documented INF) with the expected verdict and expected field "
+         "values of a file that is valid except for one fault; TLC enumerates every (shape with 1-3 cell types x 1-3 face types, tag, fault in {omitted, "
+         "negative, zero, INF}) and checks the schema (distinct tokens, omission always rejected, documented INF accepted). Every case is rendered to XML "
+         "(distinct value per tag instance so that mis-wiring and swapped cell/face types are visible, decimal/scientific notations, shuffled tag order) and "
+         "read by the real parameter_reader; TLC (ParamsTrace) compares the verdict and every field of the three returned structures with the schema.",
+    note="Sign rules are the reader's own diagnostics (the documentation states none); zero damping and INF in undocumented places are 'either'. The claim "
+         "'the values govern the run' is carried by C19 (dt, T, S), C11 (l_min) and C04 whose traces depend on those parameters.",
+    technique="TLA+ schema spec (Params) enumerated by TLC + TLC validation (ParamsTrace) of real parameter_reader results on every enumerated case")
+
 PENDING = {}   # property id -> reason (filled below for everything not in CHECKS)
 NOT_APPLICABLE = {
  "C10": "memory safety / undefined behaviour has no representation in a TLA+ state (no addresses, lifetimes or indeterminate values); "
